@@ -291,9 +291,15 @@ class Case(object):
             frame, intended = R.recv_message(ev['m'])
             dec = R.decode(frame)
             if dec is None or (intended is not None and R.canon(dec) != R.canon(intended)):
-                # the codec does not carry this message faithfully (C06/C07 territory): not a C19 case
-                self.skipped = 'pool message does not survive the codec: %s' % jdump(ev['m'])
-                return
+                if intended is not None and not ev['m'].get('r') and not ev['m'].get('u'):
+                    # a plain IPv4 UPDATE (prefixes + standard attributes, the value space of C06): the tables must follow
+                    # the UPDATE that was SENT, whatever the decoder makes of it
+                    dec = intended
+                else:
+                    # the codec does not carry this multiprotocol message faithfully (C07 territory, with its recorded
+                    # findings): not a C19 case
+                    self.skipped = 'pool message does not survive the codec: %s' % jdump(ev['m'])
+                    return
             cb = real.recv(frame)
             if cb != ['update'] and not real.trouble:
                 # _update_received did not reach handler.update_received: the bookkeeping in front of it raised
